@@ -11,8 +11,8 @@ from gen import c05_linearization as tr_lin
 from gen import c06_testlin as tr_tl
 
 ID = "C06"
-PROPS_FILES = ["Gama/Props/C06.lean", "Gama/Props/C06Assembled.lean", "Gama/Props/C06Refine.lean", "Gama/Props/C06Network.lean"]
-LEAN_TARGETS = ["Gama.Props.C06", "Gama.Props.C06Assembled", "Gama.Props.C06Refine", "Gama.Props.C06Network"]
+PROPS_FILES = ["Gama/Props/C06.lean", "Gama/Props/C06Assembled.lean", "Gama/Props/C06Refine.lean", "Gama/Props/C06Network.lean", "Gama/Props/C06AiMono.lean"]
+LEAN_TARGETS = ["Gama.Props.C06", "Gama.Props.C06Assembled", "Gama.Props.C06Refine", "Gama.Props.C06Network", "Gama.Props.C06AiMono"]
 DRIVERS = ["drv_cogo"]
 RULE = ("(a3) the whole of Acord2::execute (the real do-while, all strategy objects of the constructor) on in-memory networks "
         "of 2..4 given points and 2..6 construction stages, each tying a new point or a missing height to points that are "
@@ -41,7 +41,9 @@ RULE = ("(a3) the whole of Acord2::execute (the real do-while, all strategy obje
         "observation's stopping-test misclosure, the flag of TestLinearization); (c) end-to-end: constructive 1D/2D/3D networks "
         "(polar, forward / distance intersection, resection, traverse, azimuth, vectors, levelling, mixes; special "
         "circle orientations near 0/100/200/300/400 gon; with and without from_dh/to_dh), variants supplied / "
-        "perturbed 1 mm..5 m / omitted / omitted+further observations, pure trilateration with approximate coordinates off by "
+        "perturbed by up to 1 mm / 1 cm / 0.1 m / 1 m (the property's 'perturbed' clause) and by up to 5 m (a STRESS draw, one "
+        "case in five: 5 m can be large relative to the sights of the generated networks, see LEVEL_NOTE) / omitted / "
+        "omitted+further observations, pure trilateration with approximate coordinates off by "
         "0.1..0.5 m (true coordinates to 0.001 mm), all four algorithms; distinct by gkf text, "
         "non-trivial = at least one adjusted point")
 LEVEL_TEXT = ("partial: Lean 4 theorems over R about executable models of the approximate-coordinate building blocks "
@@ -123,8 +125,11 @@ LEVEL_NOTE = ("Theorems are about exact real arithmetic; libm and rounding are n
               "C06_refine_adjustment_reductions_within_tolerance); the only KNOWN finding is C06-F21 (solve_insertion); tol-abs is raised with the "
               "perturbation so that the documented gross-error gate is not what is being tested. A perturbation that is large relative to "
               "the sight lengths (5 m on 24 m sights, a zenith angle with to_dh 5.5 m) can exhaust the 5 linearisation iterations "
-              "gama-local allows and end 0.1 m off: recorded in corpus/C06/pending/traverse-perturbed5-bound-reached.*, outside the "
-              "property's 'perturbed' clause (small perturbations), not counted as a violation.")
+              "gama-local allows and end 0.1 m off: recorded in corpus/C06/pending/traverse-perturbed5-bound-reached.*. The end-to-end generator does draw such 5 m "
+              "perturbations (RULE: stress draw); the oracle applies the same tolerances to them, so a non-converging one IS "
+              "reported by the check (none occurs in the default seeds 1-5 or the thorough tier) and is then to be read as outside the "
+              "property's 'perturbed' clause (small perturbations) when the perturbation exceeds about a tenth of the shortest sight "
+              "and the run stopped at the iteration bound.")
 TECHNIQUE = ("Lean 4 proof (closed-form geometry over R, list induction) + differential correspondence at Float "
              "+ end-to-end property search on gama-local with shrinking")
 TRUSTED = ["harness/c06_cogo.cpp re-declares access (#define private public) for acord2.h / acordpolar.h / acordazimuth.h / "
